@@ -320,7 +320,11 @@ def run_pairhash(job):
     for v in (a, b, c, d):
         ctx.assume(v >= 0, v < bound)
     # run the real function on the two-row input [(a,b),(c,d)]: an over-count shows as coverage 1.0 for different pairs
-    got = SReal.of(f['max_pair_coverage'](xnp.Arr([SInt(a, 0, bound - 1), SInt(c, 0, bound - 1)], 'int64'), xnp.Arr([SInt(b, 0, bound - 1), SInt(d, 0, bound - 1)], 'int64')))
+    try:
+        got = SReal.of(f['max_pair_coverage'](xnp.Arr([SInt(a, 0, bound - 1), SInt(c, 0, bound - 1)], 'int64'), xnp.Arr([SInt(b, 0, bound - 1), SInt(d, 0, bound - 1)], 'int64')))
+    except symx.ShimUnsupported as e:
+        return {'paths': 1, 'decisions': 1, 'queries': 0, 'solver_s': 0, 'obligations': 1, 'discharged': 0, 'candidates': [], 'inconclusive': [f'stand-in does not model: {e}'],
+                'validated': 0, 'samples': [], 'cert': {'ok': bool(job.get('twin')), 'kind': 'not explored'}}
 
     def wit(m):
         g = lambda v: m.eval(v, model_completion=True).as_long()
